@@ -4,125 +4,21 @@ import (
 	"fmt"
 	"math"
 	"sort"
+	"sync/atomic"
 
 	"github.com/golang/geo/s1"
 	"github.com/golang/geo/s2"
 
 	"verif/mc/core"
-	"verif/mc/lattice"
-	"verif/mc/refmodel"
 )
 
 // C08 — closest and furthest edge queries equal an exhaustive scan.
+//
+// Files: c08.go (driver and oracle), c08_catalogue.go (index catalogue, target catalogue, option grid),
+// c08_dispatch.go (calls into the unexported distanceTarget interface by concrete type).
 
 func init() {
-	Registry["C08"] = &Check{Level: "exploration", QuickBudget: 240, ThoroughBudget: 1500, Run: runC08}
-}
-
-type c08Index struct {
-	name   string
-	shapes []func() s2.Shape
-}
-
-func c08Indexes(c *core.Ctx) []c08Index {
-	d := lattice.Deg
-	poly := func(p s2.Point, r float64, n int) func() s2.Shape {
-		return func() s2.Shape { return s2.PolygonFromLoops([]*s2.Loop{s2.RegularLoop(p, d(r), n)}) }
-	}
-	line := func(lat0, lng0, dlat, dlng float64, n int) func() s2.Shape {
-		return func() s2.Shape {
-			var pl s2.Polyline
-			for i := 0; i < n; i++ {
-				pl = append(pl, lattice.LL(lat0+dlat*float64(i), lng0+dlng*float64(i)))
-			}
-			return &pl
-		}
-	}
-	pts := func(ps ...s2.Point) func() s2.Shape {
-		return func() s2.Shape { pv := s2.PointVector(ps); return &pv }
-	}
-	f0 := lattice.LL(0, 0)
-	out := []c08Index{
-		{"1-face/8-edges(brute force)", []func() s2.Shape{poly(f0, 5, 8)}},
-		{"1-face/28-edges", []func() s2.Shape{poly(f0, 5, 20), line(-3, -8, 0.7, 2.1, 9)}},
-		{"1-face/100-edges", []func() s2.Shape{poly(f0, 10, 60), poly(lattice.LL(3, 4), 2, 30), line(-12, -14, 2.5, 3, 10), pts(lattice.LL(1, 1), lattice.LL(-20, 20))}},
-		{"2-faces/60-edges", []func() s2.Shape{poly(lattice.LL(0, 45), 12, 40), line(-10, 20, 1, 3, 21)}},
-		{"3-faces/cube-corner/80-edges", []func() s2.Shape{poly(lattice.LL(35.26, 45), 15, 50), line(20, 30, 1, 1, 31)}},
-		{"3-faces/separate-shapes", []func() s2.Shape{poly(lattice.LL(0, 0), 6, 20), poly(lattice.LL(0, 90), 6, 20), poly(lattice.LL(80, 10), 6, 20)}},
-		{"4-faces/equator-band", []func() s2.Shape{line(5, -170, 0, 7, 49)}},
-		{"6-faces", []func() s2.Shape{poly(lattice.LL(0, 0), 4, 12), poly(lattice.LL(0, 90), 4, 12), poly(lattice.LL(0, 180), 4, 12), poly(lattice.LL(0, -90), 4, 12), poly(lattice.LL(88, 0), 4, 12), poly(lattice.LL(-88, 0), 4, 12)}},
-		{"points-only/40", []func() s2.Shape{func() s2.Shape {
-			var pv s2.PointVector
-			for i := 0; i < 40; i++ {
-				pv = append(pv, lattice.LL(-60+3*float64(i), -170+8.5*float64(i)))
-			}
-			return &pv
-		}}},
-	}
-	if !c.Quick() {
-		out = append(out,
-			c08Index{"5-faces/200-edges", []func() s2.Shape{poly(lattice.LL(10, 10), 80, 100), line(-80, -170, 1.6, 3.4, 100)}},
-			c08Index{"1-face/deep/300-edges", []func() s2.Shape{poly(lattice.LL(10, 10), 0.01, 100), poly(lattice.LL(10.001, 10.001), 0.002, 100), line(9.99, 9.99, 0.0002, 0.0002, 100)}},
-			c08Index{"2-faces/31-edges(threshold)", []func() s2.Shape{poly(lattice.LL(0, 44), 5, 31)}},
-			c08Index{"2-faces/26-edges(threshold)", []func() s2.Shape{poly(lattice.LL(0, 44), 5, 26)}},
-		)
-	}
-	return out
-}
-
-type c08Target struct {
-	name string
-	// mk returns fresh min and max targets
-	min func() any
-	max func() any
-	// point is set for point targets (used for the interiors rule)
-	point *s2.Point
-}
-
-func c08Targets(c *core.Ctx) []c08Target {
-	var ts []c08Target
-	addPoint := func(name string, p s2.Point) {
-		ts = append(ts, c08Target{"point:" + name, func() any { return s2.NewMinDistanceToPointTarget(p) }, func() any { return s2.NewMaxDistanceToPointTarget(p) }, &p})
-	}
-	addPoint("inside-polygon(0,0)", lattice.LL(0, 0))
-	addPoint("near(2,3)", lattice.LL(2, 3))
-	addPoint("cube-corner", lattice.LL(35.26, 45))
-	addPoint("far(-40,120)", lattice.LL(-40, 120))
-	addPoint("pole", lattice.LL(90, 0))
-	addEdge := func(name string, a, b s2.Point) {
-		e := s2.Edge{V0: a, V1: b}
-		ts = append(ts, c08Target{"edge:" + name, func() any { return s2.NewMinDistanceToEdgeTarget(e) }, func() any { return s2.NewMaxDistanceToEdgeTarget(e) }, nil})
-	}
-	addEdge("crossing", lattice.LL(-8, -8), lattice.LL(9, 7))
-	addEdge("far", lattice.LL(50, 100), lattice.LL(60, 130))
-	for _, lv := range core.Pick(c, []int{0, 10}, []int{0, 3, 10, 30}) {
-		cell := s2.CellFromCellID(s2.CellFromPoint(lattice.LL(4, 4.5)).ID().Parent(lv))
-		ts = append(ts, c08Target{fmt.Sprintf("cell:level-%d", lv), func() any { return s2.NewMinDistanceToCellTarget(cell) }, func() any { return s2.NewMaxDistanceToCellTarget(cell) }, nil})
-	}
-	// a second (small) index as target: polyline + points (no interiors)
-	mkIx := func() *s2.ShapeIndex {
-		ix := s2.NewShapeIndex()
-		pl := s2.Polyline{lattice.LL(-20, -30), lattice.LL(-5, -6), lattice.LL(7, 12), lattice.LL(30, 60)}
-		ix.Add(&pl)
-		pv := s2.PointVector{lattice.LL(0, 91), lattice.LL(-70, 10)}
-		ix.Add(&pv)
-		return ix
-	}
-	ts = append(ts, c08Target{"index:polyline+points", func() any { return s2.NewMinDistanceToShapeIndexTarget(mkIx()) }, func() any { return s2.NewMaxDistanceToShapeIndexTarget(mkIx()) }, nil})
-	return ts
-}
-
-type c08Opts struct {
-	maxResults int // 0 = unlimited
-	limit      s1.ChordAngle
-	hasLimit   bool
-	maxError   s1.ChordAngle
-	interiors  bool
-	brute      bool
-}
-
-func (o c08Opts) String() string {
-	return fmt.Sprintf("MaxResults=%d limit=%v(%v) MaxError=%v interiors=%v brute=%v", o.maxResults, float64(o.limit), o.hasLimit, float64(o.maxError), o.interiors, o.brute)
+	Registry["C08"] = &Check{Level: "exploration", QuickBudget: 420, ThoroughBudget: 2400, Run: runC08}
 }
 
 // c08Tol is the documented error of the library's point/edge distance primitive at distance d (squared
@@ -146,326 +42,812 @@ func c08Near(a, b float64) bool {
 	return math.Abs(a-b) <= c08Tol(m)
 }
 
+func nextUp(x float64) float64   { return math.Nextafter(x, math.Inf(1)) }
+func nextDown(x float64) float64 { return math.Nextafter(x, math.Inf(-1)) }
+
 type c08Res struct {
 	dist  float64
 	shape int32
 	edge  int32
 }
 
+// classes of "the interior of polygon P" with respect to a target
+const (
+	c08Forbidden = iota // the target does not intersect P: an interior result for P is wrong
+	c08Optional         // the target touches / crosses the boundary of P (distance to an edge is already zero), or undecided
+	c08Mandatory        // a connected component of the target lies inside P and no edge of P is at distance zero
+)
+
+// thresholds below which "distance zero" (closest) / "distance pi" (furthest) to the boundary is considered possible
+const (
+	c08EpsNear = 1e-20 // squared chord
+	c08EpsFar  = 1e-12 // 4 - squared chord
+)
+
+type c08Stats struct {
+	queries, predictedOptimized, predictedBrute, predictedNoSearch                   int64
+	optInfinite, optFinite, optMaxResults1, optConservative, optAvoidDup             int64
+	bruteByOption, bruteByThreshold, noSearchZeroLimit, noSearchInterior             int64
+	intMandatory, intOptionalReported, intOptionalSilent, intForbiddenSilent         int64
+	atLimitExcluded, withinUlpIncluded, differential, exactCellBrute, thresholdCalls int64
+	resultsTotal, truncatedByMaxResults, emptyAnswers, tieOrderChecked               int64
+	targetInterior                                                                   int64
+}
+
+func (s *c08Stats) add(p *int64, n int64) { atomic.AddInt64(p, n) }
+
 func runC08(c *core.Ctx) {
-	c.Rule = "every index of a catalogue (1..6 cube faces spanned, 8..300 edges below and above the brute-force thresholds, polygons / polylines / points) x every target (points inside, near, far, at a cube corner and a pole; edges; cells of several levels; a second index) x the option grid MaxResults {1,2,3,unlimited} x DistanceLimit {none, mid, tiny} x MaxError {0, 0.02 rad} x IncludeInteriors x UseBruteForce, for closest and furthest queries and for FindEdges, Distance, IsDistanceLess/Greater and the conservative threshold tests; oracle = a scan over every edge with the target's own per-edge distance; non-trivial = queries answered by the optimized search (path counter hook)"
+	c.Rule = "every index of a catalogue (empty / one point / edge-less shapes / full polygon / sphere minus a cap; polygons with holes, nested shells, overlapping polygons; s2.Polygon, Polyline, PointVector, LaxPolygon, LaxPolyline, LaxLoop; 24..32 edges around the brute-force thresholds 25/26 and 30/31 as one and as three shapes; clusters of 9/10/11 edges per index cell around the enqueue threshold; concentric shapes from 40 deg to 1e-7 deg; piles of 12 coincident points that force leaf (level-30) index cells in each child position of a level-29 cell and at the first / last leaf of a face; 1..6 cube faces; up to 400 (quick) / 2000 (thorough) edges) x every target of a catalogue (points, edges incl. degenerate / 175 deg / nearly antipodal, cells of levels 0,1,5,15,30, other indexes incl. empty / full / containing polygons, and per index: vertices, midpoints, 1-ulp neighbours, antipodes, points / edges / cells inside, outside, across and around every polygon loop) x the option grid MaxResults {1,2,3,5,n-1,n,n+1,unlimited} x DistanceLimit {none, nothing-qualifies, fixed angles, and exactly / next float above / next float below the 1st, 2nd, median and last true distance of that very query} x MaxError {0, 1e-15, 0.02, 1, pi rad} x IncludeInteriors x UseBruteForce, closest and furthest, for FindEdges, Distance, IsDistanceLess/Greater and the conservative threshold tests; plus every operation sequence of length <= 3 (quick) / 4 (thorough) over {FindEdges with a point / cell / index target, Distance + predicates, ix.Add + q.Reset, ix.Reset + Add + q.Reset, q.Reset, change options, bare ix.Add} on ONE long-lived closest and furthest query x 4 option sets x prebuilt / unbuilt index, every step compared with the scan and with a fresh query on a fresh index; oracle = a scan over every edge with the target's own per-edge distance + exact reference containment of representative points for interiors; non-trivial = queries answered by the optimized search (path counter hook)"
 	c.Assume = []string{
 		"per-edge distances are taken from the target's own updateDistanceToEdge (their accuracy is the business of C12/C17); what is checked is which edges the search selects",
-		"ties are compared as distances, not as edge ids",
+		"ties are compared as distances, not as edge ids; the order of the reported list is checked against the documented (distance, shape, edge) order",
+		"completeness at a distance limit is asserted up to the documented error of the distance primitive; that every reported distance is strictly within the limit is asserted exactly; for cell targets under brute force (per-edge distance provably independent of the running limit) membership is asserted exactly",
+		"interiors: (P,-1) is demanded when every representative point of one connected component of the target (antipode for furthest) is inside P by the exact reference and no edge of P is at distance zero, forbidden when no representative point is inside and no edge is at distance zero, optional otherwise; point targets are decided by containment alone",
 	}
 	indexes := c08Indexes(c)
-	targets := c08Targets(c)
-	var grid []c08Opts
-	mid := s1.ChordAngleFromAngle(lattice.Deg(9))
-	tiny := s1.ChordAngleFromAngle(lattice.Deg(0.5))
-	for _, k := range []int{1, 2, 3, 0} {
-		for li, lim := range []s1.ChordAngle{0, mid, tiny} {
-			for _, me := range []s1.ChordAngle{0, s1.ChordAngleFromAngle(0.02)} {
-				for _, in := range []bool{true, false} {
-					grid = append(grid, c08Opts{k, lim, li > 0, me, in, false})
-				}
-			}
-		}
-	}
-	grid = append(grid, c08Opts{2, 0, false, 0, true, true}, c08Opts{0, mid, true, 0, false, true})
-	c.Note("indexes", len(indexes))
-	c.Note("targets", len(targets))
-	c.Note("option_grid", len(grid))
-	opt0, brute0 := s2.VerifEdgeQueryPaths.Optimized, s2.VerifEdgeQueryPaths.BruteForce
-
-	// per-index targets derived from the index's own geometry: vertices, edge midpoints,
-	// 1-ulp neighbours of a vertex, antipodes (decisive for furthest-edge queries)
-	baseTargets := len(targets)
-	perIndex := make([][]int, len(indexes))
+	base := c08BaseTargets(c)
+	targetsFor := make([][]c08Target, len(indexes))
+	nDerived := 0
 	for ii, idx := range indexes {
-		var pts []s2.Point
-		for _, mk := range idx.shapes {
-			s := mk()
-			n := s.NumEdges()
-			step := n/core.Pick(c, 3, 8) + 1
-			for e := 0; e < n; e += step {
-				ed := s.Edge(e)
-				pts = append(pts, ed.V0, s2.Point{Vector: ed.V0.Mul(-1)})
-				if ed.V0 != ed.V1 {
-					pts = append(pts, s2.Interpolate(0.5, ed.V0, ed.V1))
-				}
-			}
-			if n > 0 {
-				pts = append(pts, lattice.PUlp(s.Edge(0).V1, 1)[5], lattice.PUlp(s.Edge(0).V1, 1)[20])
-			}
-		}
-		pts = lattice.Dedup(pts)
-		for k, p := range pts {
-			p := p
-			targets = append(targets, c08Target{fmt.Sprintf("point:own-geometry-%d-of-index-%d", k, ii), func() any { return s2.NewMinDistanceToPointTarget(p) }, func() any { return s2.NewMaxDistanceToPointTarget(p) }, &p})
-			perIndex[ii] = append(perIndex[ii], len(targets)-1)
-		}
+		d := c08DerivedTargets(c, ii, idx)
+		nDerived += len(d)
+		targetsFor[ii] = append(append([]c08Target(nil), base...), d...)
 	}
-	c.Note("targets_from_own_geometry", len(targets)-baseTargets)
+	c.Note("indexes", len(indexes))
+	c.Note("base_targets", len(base))
+	c.Note("targets_from_own_geometry", nDerived)
 	type job struct{ ii, ti int }
-	var jobs []job
+	var jobsA, jobsB []job // A: point / edge / cell targets; B: index targets (their nested searches share the path counters)
 	for ii := range indexes {
-		for ti := 0; ti < baseTargets; ti++ {
-			jobs = append(jobs, job{ii, ti})
-		}
-		for _, ti := range perIndex[ii] {
-			jobs = append(jobs, job{ii, ti})
+		for ti, tg := range targetsFor[ii] {
+			if tg.kind == 'i' {
+				jobsB = append(jobsB, job{ii, ti})
+			} else {
+				jobsA = append(jobsA, job{ii, ti})
+			}
 		}
 	}
-	c.ParallelFor(len(jobs), func(j int) {
-		if c.Expired() {
-			return
-		}
-		ii, ti := jobs[j].ii, jobs[j].ti
-		idx, tg := indexes[ii], targets[ti]
-		// build the index once per job
+	c.Note("index_target_pairs", len(jobsA)+len(jobsB))
+	// static description of the catalogue indexes: cells by population relative to the enqueue threshold, level span
+	for _, idx := range indexes {
 		ix := s2.NewShapeIndex()
-		var shapes []s2.Shape
-		for _, mk := range idx.shapes {
-			s := mk()
-			shapes = append(shapes, s)
+		n := 0
+		for _, sh := range idx.shapes {
+			s := sh.mk()
+			n += s.NumEdges()
 			ix.Add(s)
 		}
 		ix.Build()
-		for _, furthest := range []bool{false, true} {
-			// exhaustive scan with the target's own per-edge distance
-			var tgt any
+		var lt, eq, gt int64
+		minL, maxL := 31, -1
+		for _, cell := range ix.VerifIndexDump().Cells {
+			k := 0
+			for _, cs := range cell.Shapes {
+				k += len(cs.Edges)
+			}
+			switch {
+			case k < 10:
+				lt++
+			case k == 10:
+				eq++
+			default:
+				gt++
+			}
+			if cell.ID.Level() == 30 {
+				pos := cell.ID.ChildPosition(30)
+				c.Count(fmt.Sprintf("leaf_index_cells(level 30)/child-position-%d-with-%d-edges", pos, k), 1)
+				if cell.ID == cell.ID.Parent(0).RangeMin() || cell.ID == cell.ID.Parent(0).RangeMax() {
+					c.Count("leaf_index_cells(level 30)/first-or-last-leaf-of-a-face", 1)
+				}
+			}
+			if l := cell.ID.Level(); l < minL {
+				minL = l
+			}
+			if l := cell.ID.Level(); l > maxL {
+				maxL = l
+			}
+		}
+		c.Count("index_cells_with_fewer_than_10_edges", lt)
+		c.Count("index_cells_with_exactly_10_edges", eq)
+		c.Count("index_cells_with_more_than_10_edges", gt)
+		if maxL-minL >= 15 {
+			c.Count("indexes_whose_cells_span_15_or_more_levels", 1)
+		}
+		c.Count("index_edges_total", int64(n))
+	}
+	var st c08Stats
+	run := func(jobs []job) {
+		c.ParallelFor(len(jobs), func(j int) {
+			if c.Expired() {
+				return
+			}
+			c08Job(c, &st, indexes, targetsFor, jobs[j].ii, jobs[j].ti)
+			if j%97 == 0 {
+				c.Sample(map[string]any{"index": indexes[jobs[j].ii].name, "target": targetsFor[jobs[j].ii][jobs[j].ti].name})
+			}
+		})
+	}
+	// the operation histories first (cheap), so that a wall-budget cut of the sweep below cannot remove them
+	c08Histories(c)
+	opt0, brute0 := atomic.LoadInt64(&s2.VerifEdgeQueryPaths.Optimized), atomic.LoadInt64(&s2.VerifEdgeQueryPaths.BruteForce)
+	run(jobsA)
+	optA, bruteA := atomic.LoadInt64(&s2.VerifEdgeQueryPaths.Optimized)-opt0, atomic.LoadInt64(&s2.VerifEdgeQueryPaths.BruteForce)-brute0
+	predOptA, predBruteA, thrCallsA := st.predictedOptimized, st.predictedBrute, st.thresholdCalls
+	run(jobsB)
+	optAll, bruteAll := atomic.LoadInt64(&s2.VerifEdgeQueryPaths.Optimized)-opt0, atomic.LoadInt64(&s2.VerifEdgeQueryPaths.BruteForce)-brute0
+	if c.Expired() {
+		c.CapHit("index x target sweep: wall budget reached")
+	}
+	// the path counter hook is the measurement; the prediction (from the thresholds written in the target files) only
+	// splits the measured number by branch, and is itself compared with the hook for the targets without nested searches
+	c.Count("hook/optimized_search_ran(point,edge,cell targets)", optA)
+	c.Count("hook/brute_force_ran(point,edge,cell targets)", bruteA)
+	c.Count("hook/optimized_search_ran(index targets, incl. their nested searches)", optAll-optA)
+	c.Count("hook/brute_force_ran(index targets, incl. their nested searches)", bruteAll-bruteA)
+	c.Count("queries_answered_by_optimized_search", optAll)
+	c.Count("queries_answered_by_brute_force", bruteAll)
+	// every FindEdges call is predicted; the Distance / predicate calls (one search each, or none when an interior or a
+	// nothing-qualifies limit ends them early) are not, so the hook must lie between the prediction and prediction + calls
+	thrA := thrCallsA
+	c.Note("path_prediction_vs_hook(point,edge,cell targets)", map[string]any{
+		"predicted_optimized(FindEdges)": predOptA, "predicted_brute_force(FindEdges)": predBruteA, "distance_and_predicate_calls(not predicted)": thrA,
+		"hook_optimized": optA, "hook_brute_force": bruteA,
+		"consistent": predOptA <= optA && predBruteA <= bruteA && optA+bruteA <= predOptA+predBruteA+thrA})
+	c.Count("queries(top level)", st.queries)
+	c.Count("branch/optimized", st.predictedOptimized)
+	c.Count("branch/optimized/no-limit(index covering)", st.optInfinite)
+	c.Count("branch/optimized/finite-limit(search-disc covering)", st.optFinite)
+	c.Count("branch/optimized/MaxResults=1(initial-cell shortcut)", st.optMaxResults1)
+	c.Count("branch/optimized/conservative-cell-distance(index target, MaxError)", st.optConservative)
+	c.Count("branch/optimized/explicit-duplicate-avoidance(index target, MaxError, MaxResults>1)", st.optAvoidDup)
+	c.Count("branch/brute-force/by-option", st.bruteByOption)
+	c.Count("branch/brute-force/index-below-threshold", st.bruteByThreshold)
+	c.Count("branch/no-search/nothing-qualifies-limit", st.noSearchZeroLimit)
+	c.Count("branch/no-search/interior-found-with-MaxResults=1", st.noSearchInterior)
+	c.Count("interiors/mandatory(component inside polygon)", st.intMandatory)
+	c.Count("interiors/optional-reported", st.intOptionalReported)
+	c.Count("interiors/optional-not-reported", st.intOptionalSilent)
+	c.Count("interiors/forbidden(checked absent)", st.intForbiddenSilent)
+	c.Count("limit/edges-exactly-at-the-limit-and-excluded", st.atLimitExcluded)
+	c.Count("limit/edges-one-ulp-within-the-limit-and-included", st.withinUlpIncluded)
+	c.Count("differential/brute-force-vs-optimized-pairs", st.differential)
+	c.Count("exact-membership(cell target, brute force)", st.exactCellBrute)
+	c.Count("threshold-and-distance-calls", st.thresholdCalls)
+	c.Count("index-target-interiors/edges-inside-a-target-polygon-checked", st.targetInterior)
+	c.Count("results/total", st.resultsTotal)
+	c.Count("results/lists-truncated-by-MaxResults", st.truncatedByMaxResults)
+	c.Count("results/empty-lists", st.emptyAnswers)
+	c.Count("results/tie-order-pairs-checked", st.tieOrderChecked)
+	c.Nontrivial(int(optAll))
+	if optAll == 0 && c.OnlySub == "" {
+		panic(core.HarnessError("vacuous: no query was answered by the optimized search"))
+	}
+}
+
+// c08Job runs every option of the grid, for closest and furthest, for one (index, target).
+func c08Job(c *core.Ctx, st *c08Stats, indexes []c08Index, targetsFor [][]c08Target, ii, ti int) {
+	idx, tg := indexes[ii], &targetsFor[ii][ti]
+	ix := s2.NewShapeIndex()
+	var shapes []s2.Shape
+	var off []int // flat edge numbering
+	n := 0
+	has2D := false
+	for _, sh := range idx.shapes {
+		s := sh.mk()
+		shapes = append(shapes, s)
+		off = append(off, n)
+		n += s.NumEdges()
+		ix.Add(s)
+		if sh.dim == 2 {
+			has2D = true
+		}
+	}
+	ix.Build()
+	level := 2
+	if c.Quick() {
+		level = 1
+	}
+	if n > 150 && c.Quick() || n > 500 {
+		level = 0
+	}
+	for dir := 0; dir < 2; dir++ {
+		furthest := dir == 1
+		zero := 0.0
+		if furthest {
+			zero = 4
+		}
+		better := func(a, b float64) bool {
 			if furthest {
-				tgt = tg.max()
-			} else {
-				tgt = tg.min()
+				return a > b
 			}
-			var all []c08Res
-			for si, s := range shapes {
-				for e := 0; e < s.NumEdges(); e++ {
-					if dd, ok := s2.VerifTargetDistanceToEdge(tgt, s.Edge(e)); ok {
-						all = append(all, c08Res{float64(dd), int32(si), int32(e)})
-					}
+			return a < b
+		}
+		mk := func() any {
+			if furthest {
+				return tg.max()
+			}
+			return tg.min()
+		}
+		// exhaustive scan with the target's own per-edge distance
+		scanT := mk()
+		dist := make([]float64, n)
+		has := make([]bool, n)
+		var order []int
+		for si, s := range shapes {
+			for e := 0; e < s.NumEdges(); e++ {
+				if dd, ok := s2.VerifTargetDistanceToEdge(scanT, s.Edge(e)); ok {
+					dist[off[si]+e] = float64(dd)
+					has[off[si]+e] = true
+					order = append(order, off[si]+e)
 				}
 			}
-			// interiors: closest point target inside an indexed polygon is at distance zero
-			var interior []c08Res
-			if !furthest && tg.point != nil {
-				for si, s := range shapes {
-					if s.Dimension() == 2 {
-						var rl []*refmodel.Loop
-						for _, v := range polyLoops(s) {
-							rl = append(rl, refmodel.NewLoop(v))
-						}
-						if refmodel.PolygonContains(rl, *tg.point) {
-							interior = append(interior, c08Res{0, int32(si), -1})
-						}
-					}
-				}
+		}
+		c08TargetInteriors(c, st, idx, tg, ii, ti, dir, shapes, off, dist, has)
+		sort.SliceStable(order, func(a, b int) bool { return better(dist[order[a]], dist[order[b]]) })
+		D := make([]float64, len(order))
+		for i, fi := range order {
+			D[i] = dist[fi]
+		}
+		// interiors: class of every polygon of the index with respect to this target
+		class := make([]int, len(shapes))
+		nMand := 0
+		var anyOptional bool
+		for si, sh := range idx.shapes {
+			if sh.dim != 2 {
+				continue
 			}
-			better := func(a, b float64) bool {
+			class[si] = c08Classify(tg, &idx.shapes[si], furthest, shapes[si].NumEdges(), dist[off[si]:off[si]+shapes[si].NumEdges()], has[off[si]:off[si]+shapes[si].NumEdges()])
+			switch class[si] {
+			case c08Mandatory:
+				nMand++
+			case c08Optional:
+				anyOptional = true
+			}
+		}
+		gl := level
+		if tg.kind == 'i' && level > 0 {
+			gl = level - 1 // index targets (every per-edge distance is a nested search): one grid level down
+		}
+		grid := c08Grid(gl, n, D, furthest, has2D, idx.extraK, idx.extraLimDeg)
+		var prev []c08Res // answer of the same options without brute force
+		// (shape, edge) sets as generation stamps over the flat edge numbering; interiors of shape s at n+s
+		seenStamp := make([]int32, n+len(shapes))
+		prevStamp := make([]int32, n+len(shapes))
+		var gen int32
+		slot := func(r c08Res) int {
+			if r.edge < 0 {
+				return n + int(r.shape)
+			}
+			return off[r.shape] + int(r.edge)
+		}
+		sure := make([]float64, 0, n)
+		for gi, o := range grid {
+			if c.Skip("find-edges", ii, ti, dir, gi) {
+				continue
+			}
+			cas := []int{ii, ti, dir, gi}
+			det := func(extra map[string]any) map[string]any {
+				m := map[string]any{"index": idx.name, "target": tg.name, "furthest": furthest, "options": o.String(), "edges_in_index": n}
+				for k, v := range extra {
+					m[k] = v
+				}
+				return m
+			}
+			c.Guard("find-edges", cas, func() any { return det(nil) }, func() {
+				c.Eval(1)
+				var opts *s2.EdgeQueryOptions
 				if furthest {
-					return a > b
+					opts = s2.NewFurthestEdgeQueryOptions()
+				} else {
+					opts = s2.NewClosestEdgeQueryOptions()
 				}
-				return a < b
-			}
-			for gi, o := range grid {
-				if c.Skip("find-edges", ii, ti, b2i(furthest), gi) {
-					continue
+				if o.maxResults > 0 {
+					opts.MaxResults(o.maxResults)
 				}
-				if (furthest || tg.point == nil) && o.interiors {
-					// the interiors rule is exercised for closest point targets only
-					o.interiors = false
+				if o.hasLimit {
+					opts.DistanceLimit(o.limit)
 				}
-				cas := []int{ii, ti, b2i(furthest), gi}
-				detail := func() any {
-					return map[string]any{"index": idx.name, "target": tg.name, "furthest": furthest, "options": o.String()}
+				opts.MaxError(o.maxError).IncludeInteriors(o.interiors).UseBruteForce(o.brute)
+				var q *s2.EdgeQuery
+				if furthest {
+					q = s2.NewFurthestEdgeQuery(ix, opts)
+				} else {
+					q = s2.NewClosestEdgeQuery(ix, opts)
 				}
-				c.Guard("find-edges", cas, detail, func() {
-					c.Eval(1)
-					var opts *s2.EdgeQueryOptions
-					if furthest {
-						opts = s2.NewFurthestEdgeQueryOptions()
-					} else {
-						opts = s2.NewClosestEdgeQueryOptions()
+				got := c08Find(q, mk())
+				lim := float64(o.limit)
+				nothing := o.hasLimit && lim == zero // "edges whose distance is equal are not returned": nothing can qualify
+				bad := func(msg string, extra map[string]any) {
+					e := map[string]any{"got_first": fmt.Sprint(got[:minI(len(got), 6)]), "got_len": len(got), "best_true_distances": fmt.Sprint(D[:minI(len(D), 6)]), "mandatory_interiors": nMand}
+					for k, v := range extra {
+						e[k] = v
 					}
-					if o.maxResults > 0 {
-						opts.MaxResults(o.maxResults)
+					c.Violate("find-edges", "wrong-answer", msg, cas, det(e))
+				}
+				// ---- structure: documented order (distance, shape, edge), duplicate-free, within MaxResults ----
+				gen++
+				interiorsReported, optionalReported := 0, 0
+				usesME := o.maxError > 0
+				for i, r := range got {
+					if r.shape < 0 || int(r.shape) >= len(shapes) {
+						bad("FindEdges reported a shape id that is not in the index", nil)
+						return
 					}
-					if o.hasLimit {
-						opts.DistanceLimit(o.limit)
-					}
-					opts.MaxError(o.maxError).IncludeInteriors(o.interiors).UseBruteForce(o.brute)
-					var q *s2.EdgeQuery
-					var t any
-					if furthest {
-						q = s2.NewFurthestEdgeQuery(ix, opts)
-						t = tg.max()
-					} else {
-						q = s2.NewClosestEdgeQuery(ix, opts)
-						t = tg.min()
-					}
-					got := c08Find(q, t)
-					// expected candidate list: all edges within the limit (strict), plus interiors, best first
-					var cand []c08Res
-					if o.interiors {
-						cand = append(cand, interior...)
-					}
-					for _, r := range all {
-						if o.hasLimit && !better(r.dist, float64(o.limit)) {
-							continue
-						}
-						cand = append(cand, r)
-					}
-					sort.SliceStable(cand, func(a, b int) bool { return better(cand[a].dist, cand[b].dist) })
-					k := o.maxResults
-					if k == 0 || k > len(cand) {
-						k = len(cand)
-					}
-					// MaxError permits every reported distance to be up to MaxError worse than the
-					// corresponding optimum (for any target: with MaxResults == 1 the running limit is
-					// tightened by MaxError after the first hit)
-					usesMaxError := o.maxError > 0
-					bad := func(msg string) {
-						c.Violate("find-edges", "wrong-answer", msg, cas, map[string]any{"index": idx.name, "target": tg.name, "furthest": furthest, "options": o.String(), "got": fmt.Sprint(got), "best_expected": fmt.Sprint(cand[:minI(k, 6)]), "candidates": len(cand)})
-					}
-					// structural: sorted, duplicate-free, within the result limit
-					seen := map[[2]int32]bool{}
-					for i, r := range got {
-						if i > 0 && better(r.dist, got[i-1].dist) {
-							bad("results are not sorted by distance")
-						}
-						key := [2]int32{r.shape, r.edge}
-						if seen[key] {
-							bad("results contain the same edge twice")
-						}
-						seen[key] = true
-					}
-					if o.maxResults > 0 && len(got) > o.maxResults {
-						bad("more results than MaxResults")
-					}
-					// every reported result is a real candidate with its real distance
-					index := map[[2]int32]float64{}
-					for _, r := range cand {
-						index[[2]int32{r.shape, r.edge}] = r.dist
-					}
-					for _, r := range got {
-						d, ok := index[[2]int32{r.shape, r.edge}]
-						if !ok {
-							bad("a reported (shape, edge) is not within the distance limit according to the scan (or does not exist)")
-						} else if tg.name == "index:polyline+points" && o.maxError > 0 {
-							// a target that takes advantage of MaxError may report a distance up to MaxError
-							// beyond the true per-edge distance (documented in distanceTarget.setMaxError)
-							lo, hi := d, float64(s1.ChordAngle(d).Add(o.maxError))
-							if furthest {
-								lo, hi = float64(s1.ChordAngle(d).Sub(o.maxError)), d
+					if i > 0 {
+						p := got[i-1]
+						if r.dist != p.dist {
+							if better(r.dist, p.dist) {
+								bad("results are not sorted by distance", nil)
 							}
-							if (r.dist < lo && !c08Near(r.dist, lo)) || (r.dist > hi && !c08Near(r.dist, hi)) {
-								c.Violate("find-edges", "wrong-answer", "a reported distance is not within MaxError of the distance of that edge (target using MaxError)", cas, map[string]any{"index": idx.name, "target": tg.name, "furthest": furthest, "options": o.String(), "shape": r.shape, "edge": r.edge, "reported": r.dist, "scan": d})
-							}
-						} else if !c08Near(d, r.dist) {
-							c.Violate("find-edges", "wrong-answer", "a reported distance differs from the distance of that edge by more than the documented error of the distance primitive", cas, map[string]any{"index": idx.name, "target": tg.name, "furthest": furthest, "options": o.String(), "shape": r.shape, "edge": r.edge, "reported": r.dist, "scan": d})
-						}
-					}
-					if !usesMaxError {
-						if len(got) != k {
-							bad("the number of results differs from the number of edges of the exhaustive scan that satisfy the options")
 						} else {
-							for i := range got {
-								if !c08Near(got[i].dist, cand[i].dist) {
-									bad("the i-th reported distance differs from the i-th best distance of the exhaustive scan by more than the documented error of the distance primitive")
-									break
+							st.add(&st.tieOrderChecked, 1)
+							if r.shape < p.shape || (r.shape == p.shape && r.edge < p.edge) {
+								bad("results of equal distance are not ordered by (shape, edge) as documented for EdgeQueryResult.Less", nil)
+							}
+						}
+					}
+					if r.edge < -1 {
+						bad("a result has an edge id below -1", nil)
+						return
+					}
+					if r.edge >= 0 && int(r.edge) >= shapes[r.shape].NumEdges() {
+						bad("FindEdges reported an edge id that the shape does not have", nil)
+						return
+					}
+					if seenStamp[slot(r)] == gen {
+						bad("results contain the same (shape, edge) twice", nil)
+					}
+					seenStamp[slot(r)] = gen
+					if o.hasLimit && !better(r.dist, lim) {
+						bad("a reported distance is not strictly within the DistanceLimit (edges whose distance is equal must not be returned)", map[string]any{"reported": r.dist, "limit": lim})
+					}
+					if r.edge < 0 {
+						switch {
+						case !o.interiors:
+							bad("an interior result (edge id -1) was reported although IncludeInteriors is off", nil)
+						case idx.shapes[r.shape].dim != 2:
+							bad("an interior result (edge id -1) was reported for a shape that is not a polygon", nil)
+						case class[r.shape] == c08Forbidden:
+							bad("an interior result (edge id -1) was reported for a polygon that the target does not intersect", map[string]any{"shape": r.shape})
+						case r.dist != zero:
+							bad("an interior result (edge id -1) has a distance other than zero (closest) / pi (furthest)", map[string]any{"shape": r.shape, "reported": r.dist})
+						}
+						interiorsReported++
+						if class[r.shape] == c08Optional {
+							optionalReported++
+						}
+						continue
+					}
+					fi := off[r.shape] + int(r.edge)
+					d := dist[fi]
+					if !has[fi] {
+						bad("an edge was reported although the target reports no distance for it", nil)
+						continue
+					}
+					if o.hasLimit && !better(d, lim) && !c08Near(d, lim) {
+						bad("a reported edge is not within the DistanceLimit according to the scan", map[string]any{"shape": r.shape, "edge": r.edge, "scan": d, "limit": lim})
+					}
+					if tg.usesMaxError() && usesME {
+						// a target that takes advantage of MaxError may report a distance up to MaxError
+						// beyond the true per-edge distance (documented in distanceTarget.setMaxError)
+						lo, hi := d, float64(s1.ChordAngle(d).Add(o.maxError))
+						if furthest {
+							lo, hi = float64(s1.ChordAngle(d).Sub(o.maxError)), d
+						}
+						if (r.dist < lo && !c08Near(r.dist, lo)) || (r.dist > hi && !c08Near(r.dist, hi)) {
+							bad("a reported distance is not within MaxError of the distance of that edge (target using MaxError)", map[string]any{"shape": r.shape, "edge": r.edge, "reported": r.dist, "scan": d})
+						}
+					} else if !c08Near(d, r.dist) {
+						bad("a reported distance differs from the distance of that edge by more than the documented error of the distance primitive", map[string]any{"shape": r.shape, "edge": r.edge, "reported": r.dist, "scan": d})
+					}
+				}
+				if o.maxResults > 0 && len(got) > o.maxResults {
+					bad("more results than MaxResults", nil)
+				}
+				// ---- completeness and optimality against the scan ----
+				// sure = must be found; maybe = within the documented error of the limit (either answer is acceptable)
+				z := 0
+				if o.interiors && !nothing {
+					z = nMand + optionalReported
+				}
+				sure = sure[:0]
+				nMaybe, nAtLimit, nUlpInside := 0, 0, 0
+				if !nothing {
+					for _, fi := range order {
+						d := dist[fi]
+						switch {
+						case !o.hasLimit:
+							sure = append(sure, d)
+						case c08Near(d, lim):
+							nMaybe++
+							if d == lim {
+								nAtLimit++
+							} else if nextUp(d) == lim || nextDown(d) == lim {
+								if better(d, lim) {
+									nUlpInside++
 								}
 							}
+						case better(d, lim):
+							sure = append(sure, d)
 						}
-					} else {
-						if len(got) > k || (k > 0 && len(got) == 0) {
-							bad("with MaxError the search returned no results (or too many) although edges satisfy the options")
+					}
+				}
+				kcap := math.MaxInt32
+				if o.maxResults > 0 {
+					kcap = o.maxResults
+				}
+				lo, hi := minI(kcap, z+len(sure)), minI(kcap, z+len(sure)+nMaybe)
+				if len(got) < lo || len(got) > hi {
+					bad("the number of results differs from the number of edges (and polygon interiors) of the exhaustive scan that satisfy the options", map[string]any{"want_at_least": lo, "want_at_most": hi})
+				} else {
+					for i := 0; i < lo && i < len(got); i++ {
+						exp := zero
+						if i >= z {
+							exp = sure[i-z]
 						}
-						for i := range got {
+						allowed := exp
+						if usesME {
 							// MaxError is an angle: add / subtract as chord angles
-							lim := float64(s1.ChordAngle(cand[i].dist).Add(o.maxError))
+							allowed = float64(s1.ChordAngle(exp).Add(o.maxError))
 							if furthest {
-								lim = float64(s1.ChordAngle(cand[i].dist).Sub(o.maxError))
+								allowed = float64(s1.ChordAngle(exp).Sub(o.maxError))
 							}
-							if better(lim, got[i].dist) && !c08Near(lim, got[i].dist) {
-								bad("with MaxError a reported distance is further than MaxError from the i-th optimum")
+						}
+						if better(allowed, got[i].dist) && !c08Near(allowed, got[i].dist) {
+							if usesME {
+								bad("with MaxError a reported distance is further than MaxError from the i-th optimum", map[string]any{"i": i, "ith_optimum": exp})
+							} else {
+								bad("the i-th reported distance differs from the i-th best distance of the exhaustive scan by more than the documented error of the distance primitive", map[string]any{"i": i, "ith_optimum": exp})
+							}
+							break
+						}
+					}
+				}
+				// ---- exact membership where the per-edge distance provably does not depend on the running limit ----
+				if tg.exact() && o.brute && o.maxResults != 1 && !nothing {
+					want := 0
+					for _, fi := range order {
+						if !o.hasLimit || better(dist[fi], lim) {
+							want++
+						}
+					}
+					if want+interiorsReported <= kcap {
+						st.add(&st.exactCellBrute, 1)
+						edgesGot := len(got) - interiorsReported
+						if edgesGot != want {
+							bad("brute force with a cell target: the set of reported edges is not exactly the set of edges whose distance is strictly within the limit", map[string]any{"want_edges": want, "got_edges": edgesGot})
+						}
+						for _, r := range got {
+							if r.edge >= 0 && r.dist != dist[off[r.shape]+int(r.edge)] {
+								bad("brute force with a cell target: a reported distance is not the cell's distance to that edge", nil)
 								break
 							}
 						}
 					}
-				})
-			}
-			// threshold methods and Distance on fresh queries
-			if c.Skip("thresholds", ii, ti, b2i(furthest)) {
-				continue
-			}
-			c.Guard("thresholds", []int{ii, ti, b2i(furthest)}, nil, func() {
-				var bestAll []c08Res
-				bestAll = append(bestAll, all...)
-				if !furthest {
-					bestAll = append(bestAll, interior...)
 				}
-				if len(bestAll) == 0 {
-					return
-				}
-				best := bestAll[0].dist
-				for _, r := range bestAll {
-					if better(r.dist, best) {
-						best = r.dist
-					}
-				}
-				// interiors are part of the oracle only for closest point targets
-				withInteriors := !furthest && tg.point != nil
-				mkq := func() (*s2.EdgeQuery, any) {
-					if furthest {
-						return s2.NewFurthestEdgeQuery(ix, s2.NewFurthestEdgeQueryOptions().IncludeInteriors(withInteriors)), tg.max()
-					}
-					return s2.NewClosestEdgeQuery(ix, s2.NewClosestEdgeQueryOptions().IncludeInteriors(withInteriors)), tg.min()
-				}
-				q, t := mkq()
-				c.Eval(1)
-				if got := float64(c08Distance(q, t)); !c08Near(got, best) {
-					c.Violate("thresholds", "wrong-answer", "Distance differs from the optimum of the exhaustive scan", []int{ii, ti, b2i(furthest)}, map[string]any{"index": idx.name, "target": tg.name, "furthest": furthest, "got": got, "want": best})
-				}
-				for _, lim := range []float64{best, math.Nextafter(best, 5), math.Nextafter(best, -1), best * 0.5, best*1.5 + 1e-9, 0, 4} {
-					if lim < 0 || lim > 4 {
-						continue
-					}
-					c.Eval(1)
-					q, t := mkq()
-					if furthest {
-						got := c08Greater(q, t, s1.ChordAngle(lim))
-						if want := best > lim; got != want && !c08Near(best, lim) {
-							c.Violate("thresholds", "wrong-answer", "IsDistanceGreater differs from comparing the scan's optimum with the limit", []int{ii, ti, 1}, map[string]any{"index": idx.name, "target": tg.name, "limit": lim, "optimum": best, "got": got})
+				// ---- differential: the same options with and without UseBruteForce ----
+				if o.brute && gi > 0 && !grid[gi-1].brute && prev != nil {
+					noTrunc := len(got) < kcap && len(prev) < kcap
+					meEffect := usesME && (o.maxResults == 1 || tg.usesMaxError())
+					if noTrunc && !meEffect {
+						st.add(&st.differential, 1)
+						for _, r := range prev {
+							prevStamp[slot(r)] = gen
 						}
+						diff := func(r c08Res, which string) {
+							if r.edge < 0 {
+								bad("brute force and the optimized search report different polygon interiors", map[string]any{"only_in": which, "shape": r.shape})
+							} else if d := dist[off[r.shape]+int(r.edge)]; !(o.hasLimit && c08Near(d, lim)) {
+								bad("brute force and the optimized search report different edges (not explained by the error of the distance primitive at the limit)", map[string]any{"only_in": which, "shape": r.shape, "edge": r.edge, "scan": d})
+							}
+						}
+						for _, r := range got {
+							if prevStamp[slot(r)] != gen {
+								diff(r, "brute force")
+							}
+						}
+						for _, r := range prev {
+							if seenStamp[slot(r)] != gen {
+								diff(r, "optimized")
+							}
+						}
+					}
+				}
+				if !o.brute {
+					prev = got
+					if prev == nil {
+						prev = []c08Res{}
+					}
+				}
+				// ---- bookkeeping for the evidence ----
+				st.add(&st.queries, 1)
+				st.add(&st.resultsTotal, int64(len(got)))
+				if len(got) == 0 {
+					st.add(&st.emptyAnswers, 1)
+				}
+				if len(got) == kcap {
+					st.add(&st.truncatedByMaxResults, 1)
+				}
+				st.add(&st.atLimitExcluded, int64(nAtLimit))
+				st.add(&st.withinUlpIncluded, int64(nUlpInside))
+				if o.interiors && !nothing {
+					st.add(&st.intMandatory, int64(nMand))
+					st.add(&st.intOptionalReported, int64(optionalReported))
+					for si := range class {
+						if idx.shapes[si].dim == 2 && seenStamp[n+si] != gen {
+							if class[si] == c08Optional {
+								st.add(&st.intOptionalSilent, 1)
+							} else if class[si] == c08Forbidden {
+								st.add(&st.intForbiddenSilent, 1)
+							}
+						}
+					}
+				}
+				switch {
+				case nothing:
+					st.add(&st.noSearchZeroLimit, 1)
+					st.add(&st.predictedNoSearch, 1)
+				case o.maxResults == 1 && interiorsReported > 0:
+					st.add(&st.noSearchInterior, 1)
+					st.add(&st.predictedNoSearch, 1)
+				case o.brute:
+					st.add(&st.bruteByOption, 1)
+					st.add(&st.predictedBrute, 1)
+				case n <= tg.bruteMax(furthest):
+					st.add(&st.bruteByThreshold, 1)
+					st.add(&st.predictedBrute, 1)
+				default:
+					st.add(&st.predictedOptimized, 1)
+					if o.hasLimit {
+						st.add(&st.optFinite, 1)
 					} else {
-						got := c08Less(q, t, s1.ChordAngle(lim))
-						if want := best < lim; got != want && !c08Near(best, lim) {
-							c.Violate("thresholds", "wrong-answer", "IsDistanceLess differs from comparing the scan's optimum with the limit", []int{ii, ti, 0}, map[string]any{"index": idx.name, "target": tg.name, "limit": lim, "optimum": best, "got": got})
+						st.add(&st.optInfinite, 1)
+					}
+					if o.maxResults == 1 {
+						st.add(&st.optMaxResults1, 1)
+					}
+					if tg.usesMaxError() && usesME {
+						if o.maxResults != 1 {
+							st.add(&st.optAvoidDup, 1)
 						}
-						q2, t2 := mkq()
-						if best <= lim && !c08ConsLE(q2, t2, s1.ChordAngle(lim)) {
-							c.Violate("thresholds", "wrong-answer", "IsConservativeDistanceLessOrEqual is false although the optimum is within the limit", []int{ii, ti, 0}, map[string]any{"index": idx.name, "target": tg.name, "limit": lim, "optimum": best})
+						var rest s1.ChordAngle
+						if furthest {
+							rest = s1.StraightChordAngle - o.limit.Add(o.maxError)
+						} else {
+							rest = o.limit.Sub(o.maxError)
+						}
+						if !o.hasLimit || rest > 0 {
+							st.add(&st.optConservative, 1)
 						}
 					}
 				}
 			})
 		}
-		if j%11 == 0 {
-			c.Sample(map[string]any{"index": idx.name, "target": tg.name, "options_example": grid[j%len(grid)].String()})
-		}
-	})
-	if c.Expired() {
-		c.CapHit("index x target sweep: wall budget reached")
+		c08Thresholds(c, st, ix, idx, tg, ii, ti, dir, n, D, nMand, anyOptional, has2D)
 	}
-	opt := s2.VerifEdgeQueryPaths.Optimized - opt0
-	brute := s2.VerifEdgeQueryPaths.BruteForce - brute0
-	c.Count("queries_answered_by_optimized_search", opt)
-	c.Count("queries_answered_by_brute_force", brute)
-	c.Nontrivial(int(opt))
-	if opt == 0 {
-		panic(core.HarnessError("vacuous: no query was answered by the optimized search"))
+}
+
+// c08TargetInteriors: the interior of the TARGET index.  A ShapeIndex target measures with its own EdgeQuery, whose
+// options are the documented defaults (IncludeInteriors: "The default value is true", "polygons that contain the
+// target should have a distance of zero").  So an indexed edge that lies inside a polygon Q of the target index
+// (endpoints and midpoint inside Q by the exact reference, and away from Q's boundary by the edge-pair distance) must
+// be at distance exactly zero; for furthest, an edge whose antipode lies inside Q must be at distance exactly pi.
+func c08TargetInteriors(c *core.Ctx, st *c08Stats, idx c08Index, tg *c08Target, ii, ti, dir int, shapes []s2.Shape, off []int, dist []float64, has []bool) {
+	if tg.kind != 'i' || c.Skip("index-target-interiors", ii, ti, dir) {
+		return
+	}
+	furthest := dir == 1
+	for qi := range tg.tshapes {
+		q := &tg.tshapes[qi]
+		if q.dim != 2 {
+			continue
+		}
+		qs := q.mk()
+		for si, s := range shapes {
+			for e := 0; e < s.NumEdges(); e++ {
+				ed := s.Edge(e)
+				rep := []s2.Point{ed.V0, ed.V1, {Vector: ed.V0.Add(ed.V1.Vector).Normalize()}}
+				inside := true
+				for _, p := range rep {
+					if furthest {
+						p = c08Anti(p)
+					}
+					if !q.contains(p) {
+						inside = false
+						break
+					}
+				}
+				if !inside {
+					continue
+				}
+				clear := true
+				for k := 0; k < qs.NumEdges() && clear; k++ {
+					if furthest {
+						d, ok := s2.VerifTargetDistanceToEdge(s2.NewMaxDistanceToEdgeTarget(ed), qs.Edge(k))
+						clear = ok && 4-float64(d) > c08EpsFar
+					} else {
+						d, ok := s2.VerifTargetDistanceToEdge(s2.NewMinDistanceToEdgeTarget(ed), qs.Edge(k))
+						clear = ok && float64(d) > c08EpsNear
+					}
+				}
+				if !clear {
+					continue
+				}
+				st.add(&st.targetInterior, 1)
+				want := 0.0
+				if furthest {
+					want = 4
+				}
+				if fi := off[si] + e; !has[fi] || dist[fi] != want {
+					c.Violate("index-target-interiors", "wrong-answer", "a ShapeIndex target does not report distance zero (closest) / pi (furthest) for an edge (or its antipode) inside one of the target's polygons", []int{ii, ti, dir},
+						map[string]any{"index": idx.name, "target": tg.name, "furthest": furthest, "shape": si, "edge": e, "reported": dist[fi], "has": has[fi]})
+				}
+			}
+		}
+	}
+}
+
+// c08Classify decides the class of the interior of one polygon of the index with respect to the target.
+// edgeDist / has are the scan's distances of the polygon's own edges.
+func c08Classify(tg *c08Target, sh *c08Shape, furthest bool, nEdges int, edgeDist []float64, has []bool) int {
+	if len(tg.comps) == 0 {
+		return c08Forbidden // empty target
+	}
+	anyInside, anyAllInside := false, false
+	for _, comp := range tg.comps {
+		all := true
+		for _, p := range comp {
+			if furthest {
+				p = c08Anti(p)
+			}
+			if sh.contains(p) {
+				anyInside = true
+			} else {
+				all = false
+			}
+		}
+		if all {
+			anyAllInside = true
+		}
+	}
+	if tg.kind == 'p' {
+		// a point is its own component: contained (semi-open vertex model) or not
+		if anyInside {
+			return c08Mandatory
+		}
+		return c08Forbidden
+	}
+	gap := true
+	for e := 0; e < nEdges; e++ {
+		if !has[e] {
+			continue
+		}
+		if furthest {
+			if 4-edgeDist[e] <= c08EpsFar {
+				gap = false
+			}
+		} else if edgeDist[e] <= c08EpsNear {
+			gap = false
+		}
+	}
+	switch {
+	case anyAllInside && gap:
+		return c08Mandatory
+	case !anyInside && gap:
+		return c08Forbidden
+	}
+	return c08Optional
+}
+
+// c08Thresholds checks Distance and the threshold predicates on fresh queries, with and without interiors and
+// brute force.
+func c08Thresholds(c *core.Ctx, st *c08Stats, ix *s2.ShapeIndex, idx c08Index, tg *c08Target, ii, ti, dir, n int, D []float64, nMand int, anyOptional, has2D bool) {
+	furthest := dir == 1
+	zero := 0.0
+	if furthest {
+		zero = 4
+	}
+	ins := []bool{true, false}
+	if !has2D {
+		ins = []bool{true}
+	}
+	for vi, variant := range [][2]bool{{true, false}, {true, true}, {false, false}, {false, true}} {
+		interiors, brute := variant[0], variant[1]
+		if !interiors && len(ins) == 1 {
+			continue
+		}
+		if c.Skip("thresholds", ii, ti, dir, vi) {
+			continue
+		}
+		cas := []int{ii, ti, dir, vi}
+		c.Guard("thresholds", cas, func() any {
+			return map[string]any{"index": idx.name, "target": tg.name, "furthest": furthest, "interiors": interiors, "brute": brute}
+		}, func() {
+			have := len(D) > 0
+			best := 0.0
+			if have {
+				best = D[0]
+			}
+			if interiors && nMand > 0 {
+				best, have = zero, true
+			}
+			// with an optional interior the optimum is zero either way (an edge is at distance ~zero)
+			ambiguous := interiors && anyOptional
+			mkq := func() (*s2.EdgeQuery, any) {
+				if furthest {
+					return s2.NewFurthestEdgeQuery(ix, s2.NewFurthestEdgeQueryOptions().IncludeInteriors(interiors).UseBruteForce(brute)), tg.max()
+				}
+				return s2.NewClosestEdgeQuery(ix, s2.NewClosestEdgeQueryOptions().IncludeInteriors(interiors).UseBruteForce(brute)), tg.min()
+			}
+			viol := func(msg string, extra map[string]any) {
+				m := map[string]any{"index": idx.name, "target": tg.name, "furthest": furthest, "interiors": interiors, "brute": brute, "optimum": best, "has_optimum": have, "edges_in_index": n}
+				for k, v := range extra {
+					m[k] = v
+				}
+				c.Violate("thresholds", "wrong-answer", msg, cas, m)
+			}
+			q, t := mkq()
+			c.Eval(1)
+			st.add(&st.thresholdCalls, 1)
+			gotD := c08Distance(q, t)
+			if !have {
+				// "If the index or target is empty, returns the EdgeQuery's maximal sentinel"
+				if furthest && gotD >= 0 || !furthest && !gotD.IsInfinity() {
+					viol("Distance on an empty index / with an empty target is not the sentinel (infinity for closest, negative for furthest)", map[string]any{"got": float64(gotD)})
+				}
+			} else if !c08Near(float64(gotD), best) {
+				viol("Distance differs from the optimum of the exhaustive scan", map[string]any{"got": float64(gotD)})
+			}
+			lims := []float64{0, 4}
+			if have {
+				lims = append(lims, best, nextUp(best), nextDown(best), best*0.5, best*1.5+1e-9)
+				if len(D) > 1 {
+					lims = append(lims, D[1], D[len(D)-1], nextUp(D[len(D)-1]), nextDown(D[len(D)-1]))
+				}
+			}
+			for _, lim := range lims {
+				if lim < 0 || lim > 4 {
+					continue
+				}
+				c.Eval(1)
+				st.add(&st.thresholdCalls, 2)
+				q, t := mkq()
+				q2, t2 := mkq()
+				exact := tg.exact() && !ambiguous
+				if furthest {
+					got := c08Greater(q, t, s1.ChordAngle(lim))
+					want := have && best > lim
+					if got != want && !(have && c08Near(best, lim)) {
+						viol("IsDistanceGreater differs from comparing the scan's optimum with the limit", map[string]any{"limit": lim, "got": got})
+					} else if exact && got && !want {
+						viol("IsDistanceGreater (cell target) is true although no distance is strictly greater than the limit", map[string]any{"limit": lim})
+					} else if exact && brute && !got && want {
+						viol("IsDistanceGreater (cell target, brute force) is false although a distance is strictly greater than the limit", map[string]any{"limit": lim})
+					}
+					if have && best >= lim && !c08ConsGE(q2, t2, s1.ChordAngle(lim)) {
+						viol("IsConservativeDistanceGreaterOrEqual is false although the optimum is at or beyond the limit", map[string]any{"limit": lim})
+					}
+				} else {
+					got := c08Less(q, t, s1.ChordAngle(lim))
+					want := have && best < lim
+					if got != want && !(have && c08Near(best, lim)) {
+						viol("IsDistanceLess differs from comparing the scan's optimum with the limit", map[string]any{"limit": lim, "got": got})
+					} else if exact && got && !want {
+						viol("IsDistanceLess (cell target) is true although no distance is strictly less than the limit", map[string]any{"limit": lim})
+					} else if exact && brute && !got && want {
+						viol("IsDistanceLess (cell target, brute force) is false although a distance is strictly less than the limit", map[string]any{"limit": lim})
+					}
+					gotC := c08ConsLE(q2, t2, s1.ChordAngle(lim))
+					if have && best <= lim && !gotC {
+						viol("IsConservativeDistanceLessOrEqual is false although the optimum is within the limit", map[string]any{"limit": lim})
+					}
+					limE := lim + s2.VerifMinUpdateDistanceMaxError(s1.ChordAngle(lim))
+					if gotC && !(have && (best < limE || c08Near(best, limE))) {
+						viol("IsConservativeDistanceLessOrEqual is true although the optimum is beyond the limit expanded by the documented error", map[string]any{"limit": lim})
+					}
+				}
+			}
+		})
 	}
 }
 
@@ -481,98 +863,4 @@ func minI(a, b int) int {
 		return a
 	}
 	return b
-}
-
-// The distance target types are unexported interfaces; dispatch on the concrete constructors' types.
-func c08Find(q *s2.EdgeQuery, t any) []c08Res {
-	var rs []s2.EdgeQueryResult
-	switch x := t.(type) {
-	case *s2.MinDistanceToPointTarget:
-		rs = q.FindEdges(x)
-	case *s2.MaxDistanceToPointTarget:
-		rs = q.FindEdges(x)
-	case *s2.MinDistanceToEdgeTarget:
-		rs = q.FindEdges(x)
-	case *s2.MaxDistanceToEdgeTarget:
-		rs = q.FindEdges(x)
-	case *s2.MinDistanceToCellTarget:
-		rs = q.FindEdges(x)
-	case *s2.MaxDistanceToCellTarget:
-		rs = q.FindEdges(x)
-	case *s2.MinDistanceToShapeIndexTarget:
-		rs = q.FindEdges(x)
-	case *s2.MaxDistanceToShapeIndexTarget:
-		rs = q.FindEdges(x)
-	default:
-		panic(core.HarnessError(fmt.Sprintf("unknown target type %T", t)))
-	}
-	var out []c08Res
-	for _, r := range rs {
-		out = append(out, c08Res{float64(r.Distance()), r.ShapeID(), r.EdgeID()})
-	}
-	return out
-}
-
-func c08Distance(q *s2.EdgeQuery, t any) s1.ChordAngle {
-	switch x := t.(type) {
-	case *s2.MinDistanceToPointTarget:
-		return q.Distance(x)
-	case *s2.MaxDistanceToPointTarget:
-		return q.Distance(x)
-	case *s2.MinDistanceToEdgeTarget:
-		return q.Distance(x)
-	case *s2.MaxDistanceToEdgeTarget:
-		return q.Distance(x)
-	case *s2.MinDistanceToCellTarget:
-		return q.Distance(x)
-	case *s2.MaxDistanceToCellTarget:
-		return q.Distance(x)
-	case *s2.MinDistanceToShapeIndexTarget:
-		return q.Distance(x)
-	case *s2.MaxDistanceToShapeIndexTarget:
-		return q.Distance(x)
-	}
-	panic(core.HarnessError("unknown target type"))
-}
-
-func c08Less(q *s2.EdgeQuery, t any, lim s1.ChordAngle) bool {
-	switch x := t.(type) {
-	case *s2.MinDistanceToPointTarget:
-		return q.IsDistanceLess(x, lim)
-	case *s2.MinDistanceToEdgeTarget:
-		return q.IsDistanceLess(x, lim)
-	case *s2.MinDistanceToCellTarget:
-		return q.IsDistanceLess(x, lim)
-	case *s2.MinDistanceToShapeIndexTarget:
-		return q.IsDistanceLess(x, lim)
-	}
-	panic(core.HarnessError("unknown target type"))
-}
-
-func c08ConsLE(q *s2.EdgeQuery, t any, lim s1.ChordAngle) bool {
-	switch x := t.(type) {
-	case *s2.MinDistanceToPointTarget:
-		return q.IsConservativeDistanceLessOrEqual(x, lim)
-	case *s2.MinDistanceToEdgeTarget:
-		return q.IsConservativeDistanceLessOrEqual(x, lim)
-	case *s2.MinDistanceToCellTarget:
-		return q.IsConservativeDistanceLessOrEqual(x, lim)
-	case *s2.MinDistanceToShapeIndexTarget:
-		return q.IsConservativeDistanceLessOrEqual(x, lim)
-	}
-	panic(core.HarnessError("unknown target type"))
-}
-
-func c08Greater(q *s2.EdgeQuery, t any, lim s1.ChordAngle) bool {
-	switch x := t.(type) {
-	case *s2.MaxDistanceToPointTarget:
-		return q.IsDistanceGreater(x, lim)
-	case *s2.MaxDistanceToEdgeTarget:
-		return q.IsDistanceGreater(x, lim)
-	case *s2.MaxDistanceToCellTarget:
-		return q.IsDistanceGreater(x, lim)
-	case *s2.MaxDistanceToShapeIndexTarget:
-		return q.IsDistanceGreater(x, lim)
-	}
-	panic(core.HarnessError("unknown target type"))
 }
